@@ -17,6 +17,7 @@ type EditRec struct {
 	Target string `json:"target"` // file: path of the declaration
 	What   string `json:"what"`
 	Coq    string `json:"coq"` // the same edit as a term of type J5sEdit.edit
+	Note   string `json:"note,omitempty"`
 }
 
 // scopeOfMessage rebuilds the name scope of an existing message.
@@ -207,6 +208,38 @@ func sites(b *Bundle, pkg string) (msgs []msgSite, enums []enumSite, files []*Fi
 	return
 }
 
+// EmptyEnumAppends lists the instances of the one recorded C13 finding in an edit list: for
+// every enum of pkg that has NO options in b (the bundle before the edits), the first option
+// the edits append to it, if that option ends in UNSPECIFIED.  Key: the proto full name of the
+// enum (package - or its .service / .topic sub-package - and nest path); value: the option.
+func EmptyEnumAppends(b *Bundle, pkg string, edits []EditRec) map[string]string {
+	out := map[string]string{}
+	_, enums, _, _ := sites(b, pkg)
+	for _, site := range enums {
+		if len(site.e.Opts) != 0 {
+			continue
+		}
+		for _, e := range edits {
+			if e.Kind != "option" || e.Target != site.desc {
+				continue
+			}
+			if strings.HasSuffix(e.What, "UNSPECIFIED") {
+				file, path, _ := strings.Cut(site.desc, ":")
+				full := pkg
+				switch {
+				case strings.HasSuffix(file, "/service"):
+					full += ".service"
+				case strings.HasSuffix(file, "/topic"):
+					full += ".topic"
+				}
+				out[full+"."+path] = e.What
+			}
+			break // only the FIRST option appended to the enum can become its zero value
+		}
+	}
+	return out
+}
+
 // packageSymbols rebuilds the package-scope symbol set (type names and enum value names).
 func packageSymbols(b *Bundle, pkg string) map[string]bool {
 	syms := map[string]bool{}
@@ -314,7 +347,7 @@ func ApplyEdits(r *vh.Rand, b *Bundle, pkg string, n int) []EditRec {
 			p := &Property{Name: g.fieldName(sc), F: &Field{Kind: "objinline", Name: names[i],
 				Props: []*Property{{Name: "v", F: &Field{Kind: "scalar", Scalar: &Scalar{Kind: "string"}}}}}}
 			*site.props = append(*site.props, p)
-			recs = append(recs, EditRec{"field", site.desc, p.Name + " objinline named like referenced type " + names[i], site.at.fieldEdit(r, p)})
+			recs = append(recs, EditRec{"field", site.desc, p.Name + " objinline named like referenced type " + names[i], site.at.fieldEdit(r, p), ""})
 		case k < 22 && len(msgs) > 0: // field referring to a well-known type - also the type of the implicit leading field of a topic message
 			var cands []msgSite
 			for _, m := range msgs {
@@ -340,7 +373,7 @@ func ApplyEdits(r *vh.Rand, b *Bundle, pkg string, n int) []EditRec {
 				p.Optional = true // also on the array form (plain repeated field)
 			}
 			*site.props = append(*site.props, p)
-			recs = append(recs, EditRec{"field", site.desc, p.Name + " ref to implicit type " + w[1], site.at.fieldEdit(r, p)})
+			recs = append(recs, EditRec{"field", site.desc, p.Name + " ref to implicit type " + w[1], site.at.fieldEdit(r, p), ""})
 		case k < 55 && len(msgs) > 0: // field
 			site := vh.Pick(r, msgs)
 			sc := scopeOfMessage(site.path, *site.props, site.subs, site.inOneof)
@@ -349,7 +382,7 @@ func ApplyEdits(r *vh.Rand, b *Bundle, pkg string, n int) []EditRec {
 				continue
 			}
 			*site.props = append(*site.props, p)
-			recs = append(recs, EditRec{"field", site.desc, p.Name + " " + p.F.Kind, site.at.fieldEdit(r, p)})
+			recs = append(recs, EditRec{"field", site.desc, p.Name + " " + p.F.Kind, site.at.fieldEdit(r, p), ""})
 		case k < 62 && len(msgs) > 0: // nested declaration at the end of a declared object / oneof
 			var cands []msgSite
 			for _, m := range msgs {
@@ -367,7 +400,7 @@ func ApplyEdits(r *vh.Rand, b *Bundle, pkg string, n int) []EditRec {
 				continue
 			}
 			*site.subsPtr = append(*site.subsPtr, nd)
-			recs = append(recs, EditRec{"nested", site.desc, nd.Kind + " " + nd.Name, site.at.in("(ASub " + nd.Coq() + ")")})
+			recs = append(recs, EditRec{"nested", site.desc, nd.Kind + " " + nd.Name, site.at.in("(ASub " + nd.Coq() + ")"), ""})
 		case k < 78 && len(enums) > 0: // option
 			site := vh.Pick(r, enums)
 			syms := site.symbols()
@@ -376,8 +409,10 @@ func ApplyEdits(r *vh.Rand, b *Bundle, pkg string, n int) []EditRec {
 				pfx = strcase.ToScreamingSnake(site.name) + "_"
 			}
 			o := vh.Pick(r, optWords) + fmt.Sprint(r.Intn(50))
+			// (to an enum WITHOUT options such an option would be the first one = the zero value:
+			// the known finding, replayed by the hand-written pair of EditCorpus only)
 			switch k := r.Intn(100); {
-			case k < 20:
+			case k < 20 && len(site.e.Opts) > 0:
 				o = vh.Pick(r, optWords) + "_UNSPECIFIED" // ends like the zero value, is not the zero value
 			case k < 30:
 				o = pfx + o // spelled with the prefix already on
@@ -396,8 +431,15 @@ func ApplyEdits(r *vh.Rand, b *Bundle, pkg string, n int) []EditRec {
 			if dup {
 				continue
 			}
+			note := ""
+			if len(site.e.Opts) == 0 {
+				if strings.HasSuffix(o, "UNSPECIFIED") {
+					continue
+				}
+				note = "to_enum_without_options"
+			}
 			site.e.Opts = append(site.e.Opts, o)
-			recs = append(recs, EditRec{"option", site.desc, o, site.edit(o)})
+			recs = append(recs, EditRec{"option", site.desc, o, site.edit(o), note})
 		default: // declaration
 			fk := r.Intn(len(files))
 			f := files[fk]
@@ -421,7 +463,7 @@ func ApplyEdits(r *vh.Rand, b *Bundle, pkg string, n int) []EditRec {
 				continue
 			}
 			f.Elements = append(f.Elements, e)
-			recs = append(recs, EditRec{"decl", f.Path(), e.Kind, fmt.Sprintf("EAppendDecl %d %s", fileIdx[fk], e.Coq())})
+			recs = append(recs, EditRec{"decl", f.Path(), e.Kind, fmt.Sprintf("EAppendDecl %d %s", fileIdx[fk], e.Coq()), ""})
 		}
 	}
 	return recs
